@@ -277,6 +277,7 @@ func c08Run(c *Ctx) {
 				}
 			}
 			c.Count("e2e|" + fmt.Sprint(rs) + req)
+			vrt.Forget()
 			if fmt.Sprint(got) != fmt.Sprint(want) {
 				sig := "e2e-" + c08Sig(rs, len(got) > len(want), false)
 				c.Violation(sig, fmt.Sprintf("rules %q, command 'cat %s': session delivered %v, the rules allow %v", rs, strings.Replace(req, l.Root, "R", 1), got, want), c08Case{rs, false, req})
